@@ -4,6 +4,7 @@ import (
 	"encoding/json"
 	"fmt"
 	"os"
+	"regexp"
 	"sort"
 	"strings"
 
@@ -683,6 +684,11 @@ func c15Generate(ctx *Ctx, g *graph, label string) error {
 	o.Generate.Models = true
 	o.Generate.EmbeddedSpec = true
 	o.OutputOptions.ExcludeOperationIDs = []string{"ZzExtra"}
+	strictServer := len(g.Nodes)%2 == 1
+	if strictServer {
+		// a strict server declares a type per component response: only for those that are kept
+		o.Generate.ChiServer, o.Generate.Strict = true, true
+	}
 	if len(g.Nodes)%3 == 1 {
 		// exclude-schemas leaves Go types out; the document that is pruned and embedded is not its business: a schema
 		// named there still counts with everything it refers to
@@ -721,6 +727,24 @@ func c15Generate(ctx *Ctx, g *graph, label string) error {
 	if err != nil {
 		ctx.Res.Violate("generate-level:embedded-unloadable:"+errorClass(firstLine(err.Error())), "the embedded specification does not load (dangling reference?): "+err.Error(), replay)
 		return nil
+	}
+	if strictServer {
+		keptSet := map[string]bool{}
+		for _, k := range kept {
+			keptSet[k] = true
+		}
+		for _, nd := range g.Nodes {
+			if nd.Kind != "responses" || keptSet["#/components/responses/"+nd.Name] {
+				continue
+			}
+			re := regexp.MustCompile("^" + regexp.QuoteMeta(nd.Name) + "([A-Z][A-Za-z0-9]*)?Response$")
+			for _, tn := range typeDeclNames(f) {
+				if re.MatchString(tn) {
+					ctx.Res.Violate("generate-level:type-of-a-removed-response", fmt.Sprintf("the strict server declares %s for the response component %s, which pruning removed", tn, nd.Name), replay)
+				}
+			}
+		}
+		ctx.Res.Count("generate-level:strict-server")
 	}
 	ae, err := abstractDoc(emb)
 	if err != nil {
@@ -857,6 +881,33 @@ func runC15(ctx *Ctx) error {
 					}
 				}
 			}
+		}
+	}
+	// long chains: an orphan chain of 12 components, each referred to only by the one before it (one round of removal
+	// peels one component off), next to a referenced chain of the same length; orphan removal goes on until nothing is left
+	for _, kind := range []string{"schemas", "responses"} {
+		g := &graph{}
+		chain := func(n int, prefix string, rooted bool) {
+			base := len(g.Nodes)
+			for i := 0; i < n; i++ {
+				g.Nodes = append(g.Nodes, gnode{"schemas", fmt.Sprintf("%s%02d", prefix, i)})
+				if i > 0 {
+					g.Edges = append(g.Edges, gedge{base + i - 1, base + i, []string{"prop", "items", "addl"}[i%3]})
+				}
+			}
+			if rooted {
+				g.Edges = append(g.Edges, gedge{-1, base, rootPosFor("schemas")})
+			}
+		}
+		chain(12, "Orphan", false)
+		chain(12, "Kept", true)
+		if kind == "responses" {
+			// the orphan chain starts at an unreferenced response component
+			g.Nodes = append(g.Nodes, gnode{"responses", "OrphanResp"})
+			g.Edges = append(g.Edges, gedge{len(g.Nodes) - 1, 0, "content.schema"})
+		}
+		if err := c15Case(ctx, g, "long-chain."+kind); err != nil {
+			return err
 		}
 	}
 	ctx.Res.Extra["exhaustive_part_cases"] = ctx.Res.Evaluations
